@@ -107,11 +107,27 @@ func Build(w *model.World, r *rand.Rand) (*Built, error) {
 		}
 		b.Merges = append(b.Merges, "single merge")
 	} else {
-		r.Shuffle(len(names), func(i, j int) { names[i], names[j] = names[j], names[i] })
+		// the elements of one list always arrive in the same merge (merging a
+		// list element by element would pad with nils that override primitives
+		// - C01 semantics, not what is under test here): units of names
+		isElem := func(k string) bool { return strings.HasPrefix(k, "ls.") }
+		var units [][]string
+		var elems []string
+		for _, k := range names {
+			if isElem(k) {
+				elems = append(elems, k)
+			} else {
+				units = append(units, []string{k})
+			}
+		}
+		if len(elems) > 0 {
+			units = append(units, elems)
+		}
+		r.Shuffle(len(units), func(i, j int) { units[i], units[j] = units[j], units[i] })
 		// optional first layer of values that get overwritten afterwards
 		old := map[string]interface{}{}
 		for _, k := range names {
-			if _, isNode := w.Root[k].Val.(*model.Node); !isNode && r.Intn(3) == 0 {
+			if _, isNode := w.Root[k].Val.(*model.Node); !isNode && !isElem(k) && r.Intn(3) == 0 {
 				old[k] = "old:" + k
 			}
 		}
@@ -121,16 +137,20 @@ func Build(w *model.World, r *rand.Rand) (*Built, error) {
 			}
 			b.Merges = append(b.Merges, fmt.Sprintf("merge old values %v", old))
 		}
-		for i := 0; i < len(names); {
-			n := 1 + r.Intn(len(names)-i)
+		for i := 0; i < len(units); {
+			n := 1 + r.Intn(len(units)-i)
 			vals := map[string]interface{}{}
-			for _, k := range names[i : i+n] {
-				vals[k] = goValue(w.Root[k])
+			var chunk []string
+			for _, u := range units[i : i+n] {
+				for _, k := range u {
+					vals[k] = goValue(w.Root[k])
+					chunk = append(chunk, k)
+				}
 			}
 			if err := c.Merge(nest(vals, r.Intn(2) == 0), BaseOpts...); err != nil {
 				return nil, err
 			}
-			b.Merges = append(b.Merges, fmt.Sprintf("merge %v", names[i:i+n]))
+			b.Merges = append(b.Merges, fmt.Sprintf("merge %v", chunk))
 			i += n
 		}
 	}
